@@ -17,7 +17,7 @@ case "$pkgline" in
 esac
 cp "$demo" $wt/$dir/zz_seed_demo_test.go
 tests=$(grep -o '^func Test[A-Za-z0-9_]*' "$demo" | sed 's/func //' | paste -sd'|')
-cd $wt
+cd $wt; export TMPDIR=$wt/.tmp; mkdir -p $TMPDIR
 echo "== demo WITHOUT patch (must pass)"
 go test -vet=off -count=1 -run "^($tests)\$" ./$dir 2>&1 | tail -3
 r0=${PIPESTATUS[0]}
@@ -29,6 +29,7 @@ go test -vet=off -count=1 -run "^($tests)\$" ./$dir 2>&1 | tail -6
 r1=${PIPESTATUS[0]}
 cleanup
 echo "demo without patch rc=$r0 ; with patch rc=$r1"
+unset TMPDIR
 echo "== my check"
 cd /verif
 /verif/tools/mutant.sh $src/patch.diff $chk
